@@ -159,6 +159,23 @@ def builtKV (ρ : Binding) : List (Tmpl × Tmpl) → Option (List Sexp)
     some (a ++ b ++ c)
 end
 
+mutual
+/-- number of array / hash sub-templates -/
+def Tmpl.containers : Tmpl → Nat
+  | .lit _ => 0
+  | .unquote _ => 0
+  | .splice _ => 0
+  | .list ts => containersL ts
+  | .arr ts => containersL ts + 1
+  | .hash _ kvs => containersKV kvs + 1
+def containersL : List Tmpl → Nat
+  | [] => 0
+  | t :: ts => t.containers + containersL ts
+def containersKV : List (Tmpl × Tmpl) → Nat
+  | [] => 0
+  | (k, v) :: r => k.containers + v.containers + containersKV r
+end
+
 /-! ### How a template is written down
 The reader turns `~e` into `(unquote e)` and `~@e` into `(unquote-splicing e)`
 (parser.go, TokenTilde / TokenTildeAt); a hash literal holds its keys in order. -/
